@@ -24,6 +24,19 @@ SHARDS = {'quick': 16, 'thorough': 16}
 WIDTHS = (64, 65, 66, 72, 96, 127, 128, 129, 200, 256)
 
 
+def _pyint_carrier_mixed(c):
+    """python-integer carriers (C03's rule), and lists / tuples that hold NumPy integers next to python integers: the python integers in them are
+    stored bit-exactly like any other"""
+    if _pyint_carrier(c):
+        return True
+    if isinstance(c, (list, tuple)) and len(c) > 0:
+        flat = []
+        for x in c:
+            flat.extend(x if isinstance(x, (list, tuple)) else [x])
+        return all(isinstance(x, (int, np.integer)) and not isinstance(x, (bool, np.bool_)) for x in flat) and any(type(x) is int for x in flat)
+    return False
+
+
 def make_judges(ctx):
     mon = ctx.mon
     Fxp = mon.Fxp
@@ -41,12 +54,12 @@ def make_judges(ctx):
         post = si.post or si.pre
         if post is None:
             d = si.init_args or {}
-            if ev.exc is not None and isinstance(d.get('n_word'), int) and 64 <= d['n_word'] <= 256 and _pyint_carrier(si.carrier):
+            if ev.exc is not None and isinstance(d.get('n_word'), int) and 64 <= d['n_word'] <= 256 and _pyint_carrier_mixed(si.carrier):
                 ctx.violation('raises', 'storing a Python integer into a %d-bit word raised %s: %s' % (d['n_word'], type(ev.exc).__name__, str(ev.exc)[:100]), ev, key='wide.raises')
             return
         if not (64 <= post.n_word <= 256) or post.scaled or post.is_complex:
             return
-        if not _pyint_carrier(si.carrier):
+        if not _pyint_carrier_mixed(si.carrier):
             ctx.skip('store:not a Python-integer carrier')
             return
         nf = 0 if si.raw else post.n_frac
@@ -142,7 +155,7 @@ def floors(tier):
     cells += [('route', r) for r in ('constructor.raw', 'constructor', 'set_val.raw', 'set_val', 'call')]
     cells += [('extprec', op, b) for op in ('__init__', 'resize', 'reset') for b in (True, False)] + [('extprec', '__getitem__', True), ('extprec', 'like', True), ('extprec', 'like', False)]
     cells += [('render', 'bin'), ('render', 'hex'), ('parse', 'bin', 'constructor', 'raw'), ('parse', 'hex', 'constructor', 'raw'), ('parse', 'bin', 'set_val', 'raw'),
-              ('not', '-'), ('and', 'Fxp'), ('or', '+mask'), ('xor', '-mask')]
+              ('not', '-'), ('and', 'Fxp'), ('or', '+mask'), ('xor', '-mask'), ('list-numpy-and-python-integers',)]
     return cells
 
 
@@ -198,6 +211,10 @@ def run_case(case, ctx):
         _try(lambda: y0.set_val(ks[1]))
     _try(lambda: Fxp([ks[0], ks[1]], s, n, nf, raw=True, overflow=o))
     _try(lambda: Fxp([[ks[0], 1], [-1 if s else 0, ks[2]]], s, n, nf, raw=True, overflow=o))
+    # lists / tuples that hold NumPy integers next to python integers beyond 64 bits (numpy would choose float64 for them)
+    _try(lambda: Fxp([np.int64(-1 if s else 1), ks[0]], s, n, nf, raw=True, overflow=o))
+    _try(lambda: Fxp((np.int8(3), ks[1], np.uint64(2 ** 63 + 1)), s, n, 0, overflow=o))
+    ctx.floor_hit(('list-numpy-and-python-integers',))
     # render / parse / bitwise at this width
     inr = [rng.choice([lo, hi, -1 if s else hi, 0, rng.randint(lo, hi), rng.randint(lo, hi)]) for _ in range(3)]
     for k in inr[:2]:
